@@ -177,7 +177,7 @@ func judgeWBlock(r *mon.Rec, t *testing.T, sc wblockT) {
 			return
 		}
 	case "response":
-		if errB != nil || !gotB || respB.Nonce != 1 {
+		if errB != nil || !gotB || respB.Nonce != 1 || respB.Damaged {
 			bad("result", "call B returned err=%v msg=%v nonce=%d, want the response", errB, gotB, respB.Nonce)
 			return
 		}
